@@ -688,27 +688,44 @@ def classify(f):
     return None
 
 
+def run_random(env, codec, style, seed, n):
+    ev = env.ev
+    seen = [0]
+
+    def check(case):
+        res = check_case(case, env)
+        if res is not None:
+            record(case, res, ev)
+            seen[0] += 1
+            if seen[0] > 25 and case.get("na_kinds", 0) >= 3 and 50 < len(bytes.fromhex(case["raw"])) < 220:
+                ev.sample({k: case[k] for k in ("codec", "style", "comment_enc", "ie", "oe", "errs", "v")}
+                          | {"bytes": repr(bytes.fromhex(case["raw"]))}, codec + "/" + style)
+
+    # BOM + alias spelling is a known finding reported by the dedicated part; keep searching behind it
+    fails, known = core.hyp_search(case_strategy(codec, style), check, ev, seed, n, classify=classify,
+                                   known={KNOWN_BOM: True})
+    return fails
+
+
 def shard_random(task):
     codec, style, seed, n = task
     core.setup_repo()
     ev = core.Evidence()
     with core.TempDir() as d, Child() as child:
+        fails = run_random(Env(d, child, ev), codec, style, seed, n)
+        ev.notes["reload_child_requests"] = child.served
+    return ev, fails
+
+
+def shard_cell(task):
+    """quick tier: sweep slice and random search of one (codec, style) cell behind one reload child."""
+    codec, style, seed, n = task
+    core.setup_repo()
+    ev = core.Evidence()
+    with core.TempDir() as d, Child() as child:
         env = Env(d, child, ev)
-
-        seen = [0]
-
-        def check(case):
-            res = check_case(case, env)
-            if res is not None:
-                record(case, res, ev)
-                seen[0] += 1
-                if seen[0] > 25 and case.get("na_kinds", 0) >= 3 and 50 < len(bytes.fromhex(case["raw"])) < 220:
-                    ev.sample({k: case[k] for k in ("codec", "style", "comment_enc", "ie", "oe", "errs", "v")}
-                              | {"bytes": repr(bytes.fromhex(case["raw"]))}, codec + "/" + style)
-
-        # BOM + alias spelling is a known finding reported by the dedicated part; keep searching behind it
-        fails, known = core.hyp_search(case_strategy(codec, style), check, ev, seed, n, classify=classify,
-                                       known={KNOWN_BOM: True})
+        fails = run_sweep(env, codec, style, True, 0, 1)
+        fails += run_random(env, codec, style, seed, n)
         ev.notes["reload_child_requests"] = child.served
     return ev, fails
 
@@ -805,29 +822,35 @@ def minimise(args, kw, f0, env):
     return best["f"]
 
 
+def run_sweep(env, codec, style, quick, idx, of):
+    ev = env.ev
+    fails = {}
+    for k, (args, kw) in enumerate(sweep_cases(codec, style, quick)):
+        if k % of != idx:
+            continue
+        case = make_case(*args, **kw)
+        try:
+            res = check_case(case, env)
+        except Failure as f:
+            if classify(f) == KNOWN_BOM:
+                ev.excluded_known[KNOWN_BOM] += 1
+            elif f.key not in fails:
+                fails[f.key] = minimise(args, kw, f, env)
+            continue
+        if res is not None:
+            record(case, res, ev)
+            ev.label("sweep-case")
+    return list(fails.values())
+
+
 def shard_sweep(task):
     codec, style, quick, idx, of = task
     core.setup_repo()
     ev = core.Evidence()
-    fails = {}
     with core.TempDir() as d, Child() as child:
-        env = Env(d, child, ev)
-        for k, (args, kw) in enumerate(sweep_cases(codec, style, quick)):
-            if k % of != idx:
-                continue
-            case = make_case(*args, **kw)
-            try:
-                res = check_case(case, env)
-            except Failure as f:
-                if classify(f) == KNOWN_BOM:
-                    ev.excluded_known[KNOWN_BOM] += 1
-                elif f.key not in fails:
-                    fails[f.key] = minimise(args, kw, f, env)
-                continue
-            if res is not None:
-                record(case, res, ev)
-                ev.label("sweep-case")
-    return ev, list(fails.values())
+        fails = run_sweep(Env(d, child, ev), codec, style, quick, idx, of)
+        ev.notes["reload_child_requests"] = child.served
+    return ev, fails
 
 
 def shard_known(task):
@@ -862,17 +885,21 @@ def run(ctx):
         cells = [(c, s) for c, s in cells if sel in (c, s, "%s/%s" % (c, s))]
     if part in (None, "known"):
         ctx.pmap(shard_known, [0])
-    if part in (None, "sweep"):
-        tasks = []
-        for c, s in cells:
-            of = 1 if ctx.quick or s in ("ie", "none") else (8 if s == "agree" else 4)
-            tasks += [(c, s, ctx.quick, i, of) for i in range(of)]
-        ctx.pmap(shard_sweep, tasks)
-    if part in (None, "random"):
-        reps = ctx.pick(1, 4)
-        n = ctx.pick(64, 500)
-        tasks = [(c, s, ctx.shard_seed("%s/%s/%d" % (c, s, r), "random"), n) for r in range(reps) for c, s in cells]
-        ctx.pmap(shard_random, tasks)
+    reps = ctx.pick(1, 4)
+    n = ctx.pick(48, 500)
+    if part is None and ctx.quick:
+        # one task (one reload child) per cell: sweep slice, then random search
+        ctx.pmap(shard_cell, [(c, s, ctx.shard_seed("%s/%s/0" % (c, s), "random"), n) for c, s in cells])
+    else:
+        if part in (None, "sweep"):
+            tasks = []
+            for c, s in cells:
+                of = 1 if ctx.quick or s in ("ie", "none") else (8 if s == "agree" else 4)
+                tasks += [(c, s, ctx.quick, i, of) for i in range(of)]
+            ctx.pmap(shard_sweep, tasks)
+        if part in (None, "random"):
+            tasks = [(c, s, ctx.shard_seed("%s/%s/%d" % (c, s, r), "random"), n) for r in range(reps) for c, s in cells]
+            ctx.pmap(shard_random, tasks)
     # grid coverage: 11 codecs x 5 styles x 4 paths
     grid = {}
     hit = 0
